@@ -19,6 +19,7 @@ theorem Part.script_prefix (pt : Part) (hnr : ∀ k, pt.outcome ≠ .retryAfter 
   | silentAfter k => exact ⟨k, rfl⟩
   | retryAfter k => exact absurd ho (hnr k)
   | eofAfter k => exact ⟨k, rfl⟩
+  | endErrorAfter k => exact ⟨k, rfl⟩
 
 theorem Part.script_of_final_ok (pt : Part) (hnr : ∀ k, pt.outcome ≠ .retryAfter k) (h : pt.finalErr = some none) :
     pt.script = pt.rows := by
@@ -31,6 +32,7 @@ theorem Part.script_of_final_ok (pt : Part) (hnr : ∀ k, pt.outcome ≠ .retryA
   | silentAfter k => rw [ho] at h; simp at h
   | retryAfter k => exact absurd ho (hnr k)
   | eofAfter k => rw [ho] at h; simp at h
+  | endErrorAfter k => rw [ho] at h; simp at h
 
 /-- what `nextMsg` can be -/
 theorem nextMsg_row {parts : List Part} {c : CState} {p : Nat} {early : Bool} {r : Row}
